@@ -1,8 +1,9 @@
 import Driver.MemfsFn
 import Rivia.Model.Macros
+import Rivia.Spec.MacroSpec
 
 namespace Driver
-open Rivia Rivia.Memfs Rivia.Macros
+open Rivia Rivia.Memfs Rivia.Macros Rivia.Spec.MacroSpec
 
 def parseMacro (args : List String) : Option MacroCall :=
   match args with
@@ -35,9 +36,45 @@ def showMacroOut : MOut → String
       | some m => hexOfString ((m.splitOn "\n").headD "")
       | none => "ERR")
 
+/-- is the path argument resolved to the same key when the macro hands the absolute form back to
+    the vfs (the macros call `abs` and then the operation on the result) -/
+def stableArg (env : Env) (s : State) (p : Str) : Bool :=
+  match keyOf env s p with
+  | some a => keyOf env s (renderP a) == some a
+  | none => true
+
+def pathArgs : MacroCall → List Str
+  | .exists p | .noExists p | .isDir p | .noDir p | .isFile p | .noFile p | .isSymlink p | .noSymlink p => [p]
+  | .readAll p _ | .readlink p _ | .mkdirP p | .mkdirM p _ | .mkfile p | .writeAll p _ | .remove p | .removeAll p => [p]
+  | .readlinkAbs p t | .copyfile p t | .symlink p t => [p, t]
+
+/-- decidable classes of the known deviations between the macro bodies and their documentation -/
+def macroClass (env : Env) (s : State) (m : MacroCall) : String :=
+  if !(pathArgs m).all (stableArg env s) then "macro_double_resolution" else
+  match m with
+  | .noDir p => if pExists env s p && !pIsDir env s p then "no_dir_no_file_exists" else "-"
+  | .noFile p => if pExists env s p && !pIsFile env s p then "no_dir_no_file_exists" else "-"
+  | .copyfile a _ =>
+    (match nodeOf env s a with
+     | some n => if n.kind = .file && (decodeUtf8 n.data).isNone then "copyfile_non_utf8" else "-"
+     | none => "-")
+  | _ => "-"
+
+/-- spec column: should the macro pass, and (when it should pass, or for a checking macro) the
+    abstract tree it must leave. A macro that is to panic may stop before acting. -/
+def macroSpecCol (env : Env) (s : State) (m : MacroCall) : String :=
+  -- documented: "Assert the creation of a symlink. If the symlink exists no change is made"
+  let (b, s') := match m with
+    | .symlink l _ => if pIsLink env s l then (true, s) else macroSpec env s m
+    -- nothing to remove: the postcondition holds already
+    | .remove p => if resolvable env s p && !pExists env s p then (true, s) else macroSpec env s m
+    | _ => macroSpec env s m
+  (if b then "ok pass" else "ok panic") ++ " ## " ++
+    (if b || isChecking m then absDump (Rivia.Spec.absS s') else "*")
+
 def macroOp (env : Env) (args : List String) (s : State) : Option (String × State) :=
   match parseMacro args with
-  | some m => let (o, s') := runMacro env s m; some ("ok " ++ showMacroOut o, s')
+  | some m => let (o, s') := runMacro env s m; some ("ok " ++ showMacroOut o ++ " ## " ++ dumpState s' ++ "\t" ++ macroSpecCol env s m ++ "\t" ++ macroClass env s m, s')
   | none => none
 
 end Driver
